@@ -1,11 +1,10 @@
-\* quick tier: ONE run model-checks the clauses on every history of two calls and prints them for the S2C replay
-\* (FormIrrelevant, the costly one, is checked by the thorough configurations)
-CONSTANTS MaxSteps = 2
+\* thorough tier, exhaustive: call on two objects ; in-place edit ; probe (same call, ring operators, other policies, fill methods)
+CONSTANTS MaxSteps = 3
           FreeSteps = 1
           Scope = "quick"
           Caller = FALSE
-          Edits = FALSE
-          Pairs = "no"
+          Edits = TRUE
+          Pairs = "only"
           Extend = FALSE
 INIT Init
 NEXT NextGen
